@@ -19,7 +19,7 @@ pub fn property() -> Property {
     Property {
         id: "C12",
         level: "fault_enumeration",
-        rule: "https requests carrying unique marker strings (path, query, header, cookie, body, Basic credentials) are sent through a scripted proxy connection (http and https proxy URLs, with and without userinfo; origin hosts domain/IPv4/IPv6 x default/explicit port). The proxy side is a scripted reply: EVERY status 100..999 (exhaustive; a logger at Trace level is installed for half of the cases), reply heads cut at EVERY byte offset, garbage heads, heads > 8 KiB, refusal bodies {empty, 11 B, 10 239, 10 240, 262 144 B, endless} with and without a Content-Length announced by the proxy, served whole / bytewise / in random segments; for 2xx replies the client is then spliced onto a live TLS server (bridge) whose certificate is either valid for the origin's name or only for the proxy's name (private CA added as root). Oracle on the transport trace, where every write carries the number of reply bytes the client had consumed: first bytes are `CONNECT origin-host:effective-port HTTP/1.1` (IPv6 bracketed); Proxy-Authorization decodes (standard Base64 alphabet) to the proxy URL's credentials, which include tildes at every offset modulo 3; NO write between the end of the CONNECT head and the read that delivered the last byte of a 2xx reply head; NO byte written after a non-2xx, truncated or garbage reply; the error is ConnectError{status, body} with body <= 10 240 bytes and a prefix of what the proxy sent; no marker (plain or base64) in the raw bytes written to the proxy; the request decrypted inside the tunnel carries no Proxy-Authorization; the handshake succeeds against the certificate for the origin's name and fails against one valid only for the proxy's name. Every request comes from a Session whose default headers (X-Session-Key, Cookie) carry markers as well; refusals followed by a sticky I/O error (TimedOut/WouldBlock/ConnectionReset) instead of a close stay refusals (Err, nothing written afterwards). Non-trivial: every case; distinct = hash(reply bytes, segmentation, configuration).",
+        rule: "https requests carrying unique marker strings (path, query, header, cookie, body, Basic credentials) are sent through a scripted proxy connection (http and https proxy URLs, with and without userinfo; origin hosts domain/IPv4/IPv6 x default/explicit port). The proxy side is a scripted reply: EVERY status 100..999 (exhaustive; a logger at Trace level is installed for half of the cases), reply heads cut at EVERY byte offset, garbage heads, heads > 8 KiB, refusal bodies {empty, 11 B, 10 239, 10 240, 262 144 B, endless} with and without a Content-Length announced by the proxy, served whole / bytewise / in random segments; for 2xx replies the client is then spliced onto a live TLS server (bridge) whose certificate is either valid for the origin's name or only for the proxy's name (private CA added as root). Oracle on the transport trace, where every write carries the number of reply bytes the client had consumed: first bytes are `CONNECT origin-host:effective-port HTTP/1.1` (IPv6 bracketed); Proxy-Authorization decodes (standard Base64 alphabet) to the proxy URL's credentials, which include tildes at every offset modulo 3 and 300-character secrets; NO write between the end of the CONNECT head and the read that delivered the last byte of a 2xx reply head; NO byte written after a non-2xx, truncated or garbage reply; the error is ConnectError{status, body} with body <= 10 240 bytes and a prefix of what the proxy sent; no marker (plain or base64) in the raw bytes written to the proxy; the request decrypted inside the tunnel carries no Proxy-Authorization; the handshake succeeds against the certificate for the origin's name and fails against one valid only for the proxy's name. Every request comes from a Session whose default headers (X-Session-Key, Cookie) carry markers as well; refusals followed by a sticky I/O error (TimedOut/WouldBlock/ConnectionReset) instead of a close stay refusals (Err, nothing written afterwards). Non-trivial: every case; distinct = hash(reply bytes, segmentation, configuration).",
         assumptions: &["proxy credentials are drawn from unreserved characters (percent-decoding of userinfo is not fixed by the statement)", "the `Proxy-Authorization: Basic Og==` sent for proxies without credentials is recorded, not judged"],
         min_nontrivial: |t| t.pick(1_000, 10_000),
         gens,
@@ -34,7 +34,7 @@ fn gens(tier: Tier) -> Vec<Gen> {
         Gen { name: "cuts", count: cuts_count(), exhaustive: true, run: run_cuts },
         Gen { name: "bodies", count: 6 * 3 * 2 * 2, exhaustive: true, run: run_bodies },
         Gen { name: "refusal-then-io-error", count: (4 * 3 * 3) as u64, exhaustive: true, run: run_refusal_then_error },
-        Gen { name: "matrix", count: (3 * 2 * 2 * 6 * 2) as u64, exhaustive: true, run: run_matrix },
+        Gen { name: "matrix", count: (3 * 2 * 2 * 8 * 2) as u64, exhaustive: true, run: run_matrix },
         Gen { name: "garbage", count: tier.pick(800, 30_000), exhaustive: false, run: run_garbage },
         Gen { name: "tunnels", count: tier.pick(400, 6_000), exhaustive: false, run: run_tunnel_random },
         Gen { name: "redirect-into-tunnel", count: tier.pick(30, 300), exhaustive: false, run: run_redirect_into_tunnel },
@@ -274,8 +274,28 @@ fn run_status(ctx: &mut Ctx, rng: &mut Rng, index: u64) {
     let status = 100 + index as u16;
     let cfg = Config::basic();
     let descr = |x: &str| format!("{x}; CONNECT reply status {status}; proxy={} origin={}", cfg.proxy_url(), cfg.origin_url());
-    let head = reply_head(status, index % 7 == 0);
+    let mut head = reply_head(status, index % 7 == 0);
     if (200..300).contains(&status) {
+        // a successful CONNECT reply has no content: framing fields on it are ignored (RFC 9110
+        // 9.3.6) and the tunnel starts right behind the blank line
+        let n = head.len();
+        match index % 4 {
+            1 => {
+                head.truncate(n - 2);
+                head.extend_from_slice(b"Content-Length: 300\r\n\r\n");
+                ctx.count("agreeing_replies_with_framing_fields", 1);
+            }
+            2 => {
+                head.truncate(n - 2);
+                head.extend_from_slice(b"Transfer-Encoding: chunked\r\n\r\n");
+                ctx.count("agreeing_replies_with_framing_fields", 1);
+            }
+            3 => {
+                head.truncate(n - 2);
+                head.extend_from_slice(b"Content-Length: 0\r\nConnection: keep-alive\r\n\r\n");
+            }
+            _ => {}
+        }
         ctx.count("status_2xx_tunnels", 1);
         let bytewise = index % 2 == 0;
         if bytewise {
@@ -415,6 +435,9 @@ fn run_bodies(ctx: &mut Ctx, rng: &mut Rng, index: u64) {
     ctx.sample(|| json!({"gen": "bodies", "status": status, "body_size": if size == usize::MAX { -1 } else { size as i64 }}));
 }
 
+/// a 300-character credential (a token used as proxy password): longer than any fixed-size scratch buffer
+const LONG_SECRET: &str = "tok-0123456789abcdefghijklmnopqrstuvwxyzABCDEFGHIJKLMNOPQRSTUVWXYZ-0123456789abcdefghijklmnopqrstuvwxyzABCDEFGHIJKLMNOPQRSTUVWXYZ-0123456789abcdefghijklmnopqrstuvwxyzABCDEFGHIJKLMNOPQRSTUVWXYZ-0123456789abcdefghijklmnopqrstuvwxyzABCDEFGHIJKLMNOPQRSTUVWXYZ-0123456789abcdefghijklmnopqrstuvwxyzABCDEFGHIJKLMNOPQRS";
+
 fn run_matrix(ctx: &mut Ctx, _rng: &mut Rng, index: u64) {
     let mut i = index as usize;
     let host = ["good.test", "127.0.0.1", "[::1]"][i % 3];
@@ -425,8 +448,8 @@ fn run_matrix(ctx: &mut Ctx, _rng: &mut Rng, index: u64) {
     i /= 2;
     // (tildes at every offset modulo 3 of `user:password`: their low six bits are the value 62,
     //  where the standard and the URL-safe Base64 alphabets differ)
-    let ui = [None, Some(("puser", None)), Some(("pUser", Some("P-pass_1.~Q"))), Some(("ab~", Some("~~~x~~y~"))), Some(("~", None)), Some(("u~~", Some("~")))][i % 6];
-    i /= 6;
+    let ui = [None, Some(("puser", None)), Some(("pUser", Some("P-pass_1.~Q"))), Some(("ab~", Some("~~~x~~y~"))), Some(("~", None)), Some(("u~~", Some("~"))), Some(("svc-account", Some(LONG_SECRET))), Some((LONG_SECRET, None))][i % 8];
+    i /= 8;
     let pport = [None, Some(3128u16)][i % 2];
     // IPv6 origins: certificate checks waived - the library hands the bracketed literal to the TLS
     // backend, which then never matches an IP SAN (a false rejection, outside this property; see
